@@ -27,9 +27,9 @@ pub const INLINE_UNITS: &[&str] = &["ºC", "°F", "kg", "ml", "C", "minutes"];
 pub const INLINE_NUMS: &[&str] = &["180", "350", "2", "1.5", "0.5"];
 pub const META_KEYS: &[&str] = &[
     "note", "origin", "my key", "wine pairing", "x", "Kitchen", "season", "equipment notes", "clé", "rating", "k1", "k2", "k3", "diet", "cuisine", "difficulty",
-    "image", "nota bene",
+    "image", "nota bene", "[mode", "[duplicate", "define]", "[x",
 ];
-pub const META_VALUES: &[&str] = &["value", "a longer value", "https://example.org/a?b=c", "1", "yes: no", "Ünïcode ✓", "it's \"quoted\"", "a, b, c", "3.5 stars"];
+pub const META_VALUES: &[&str] = &["value", "a longer value", "https://example.org/a?b=c", "1", "yes: no", "Ünïcode ✓", "it's \"quoted\"", "a, b, c", "3.5 stars", "steps", "ref", "text"];
 pub const SECTION_NAMES: &[&str] = &["Dough", "Filling", "To serve", "Step 2 prep", "Crème", "sauce & sides"];
 pub const STEP_LINES: &[&str] = &[">> note: remember the oven", ">> [optional: add more of it", ">> see note [a]: later", ">> wine pairing: red", ">> my key : spaced out", ">>x:y"];
 pub const TEXT_MODE_COMPONENTS: &[&str] = &["@salt{1%tsp}(flaky, if possible)", "#pan{}(big)", "@olive oil{2%tbsp}", "@&salt{}", "@water{1/2%l}(cold)", "#bowl", "@flour{=200%g}", "#&pan(hot)"];
@@ -637,10 +637,20 @@ pub fn build(raw: &RawRecipe, strict: bool) -> RecipeM {
 }
 
 pub fn build_with(raw: &RawRecipe, strict: bool, bare_timers: bool) -> RecipeM {
+    build_impl(raw, strict, bare_timers && !raw.ext)
+}
+
+/// Ext-level recipes whose timers may lack a duration: well formed for an extended parser without
+/// TIMER_REQUIRES_TIME
+pub fn build_ext_with_bare_timers(raw: &RawRecipe) -> RecipeM {
+    build_impl(raw, false, true)
+}
+
+fn build_impl(raw: &RawRecipe, strict: bool, bare_timers: bool) -> RecipeM {
     let ext = raw.ext;
     let mut b = Builder {
         ext,
-        bare_timers: bare_timers && !ext,
+        bare_timers,
         igr_defs: vec![],
         cw_defs: vec![],
         mode: ModeM::All,
